@@ -8,14 +8,14 @@ CONSTANTS
   Mode = "lk"
   NC = 2
   MaxBody = 3
-  MaxPrefix = 2
-  SkipBytes = {0, 128}
+  MaxPrefix = 0
+  SkipBytes = {0, 1, 128}
   Variants = {0}
   DimVals = {0, 3}
   MaxW = 2
   MaxH = 1
   DomT = 1
   PadK = 0
-  Waive = {}
-INVARIANTS Idempotent SameFont SameChains Fits Closed MainLoopSame PlWellFormed
+  Waive = {"stops"}
+INVARIANTS SameFont
 CHECK_DEADLOCK FALSE
